@@ -483,6 +483,20 @@ def do_setup():
     for pkg, feat in pkgs:
         if build("native", pkg, feat) is None:
             ok = False
+    # warm the Miri builds the quick tier uses (best effort: a Miri stage that cannot run is inconclusive, not broken)
+    miri = sorted({(s["pkg"], s["bin"], s["prop"]) for p in PROPS.values() for s in p["stages"]("quick") if s.get("kind") == "miri"})
+    seen = set()
+    for pkg, binname, prop in miri:
+        if pkg in seen:
+            continue
+        seen.add(pkg)
+        env = dict(ENV_BASE)
+        env.setdefault("MIRIFLAGS", "-Zmiri-disable-isolation -Zmiri-permissive-provenance")
+        env.setdefault("RUSTFLAGS", GUARD_CFG)
+        t0 = time.time()
+        p = subprocess.run(["cargo", "+nightly", "miri", "run", "-q", "-p", pkg, "--bin", binname, "--target-dir", os.path.join(TARGET, "miri"), "--",
+                            prop, "--seed", "1", "--cases", "0"], cwd=HARNESS, env=env, stdout=subprocess.PIPE, stderr=subprocess.STDOUT, text=True)
+        log("miri warm-up %s: rc=%d in %.0fs" % (pkg, p.returncode, time.time() - t0))
     return 0 if ok else 2
 
 
